@@ -252,11 +252,18 @@ func (e *Engine) Load(name string) (*Template, error) {
 	var loaderErrors []error
 	var template *Template
 
+	// Set when a loader that has the template failed to deliver it: that is a failure
+	// of its own, not a missing template
+	loadFailed := false
+
 	for _, loader := range e.loaders {
 		source, err := loader.Load(name)
 		if err != nil {
 			// Collect loader errors for better diagnostics
 			loaderErrors = append(loaderErrors, fmt.Errorf("loader %T: %w", loader, err))
+			if !errors.Is(err, ErrTemplateNotFound) && loader.Exists(name) {
+				loadFailed = true
+			}
 			continue
 		}
 
@@ -299,6 +306,14 @@ func (e *Engine) Load(name string) (*Template, error) {
 
 			for i, err := range loaderErrors {
 				errorDetails.WriteString(fmt.Sprintf("  %d) %s\n", i+1, err.Error()))
+			}
+
+			if loadFailed {
+				// Keep the loaders' own errors reachable through errors.Is / errors.As,
+				// and do not report a read failure as "template not found"
+				cause := errors.Join(loaderErrors...)
+				LogError(cause, fmt.Sprintf("Failed to load template '%s'", name))
+				return nil, fmt.Errorf("failed to load template '%s': %w", name, cause)
 			}
 
 			LogError(ErrTemplateNotFound, errorDetails.String())
